@@ -85,6 +85,39 @@ def check(tier, seed):
                 res.violation('matches() is not true for exactly value()',
                               {'property': 'C15', 'component': 'matches', 'ops': ops, 'value': [a, b],
                                'matches': [good, bad1, bad2]}, 'matches|' + C.hexs(body))
+        # very long unreset histories (hidden state beyond the reported pair must not exist)
+        for n, fill in ((9000, 255), (20000, 255), (12000, None), (70000 if tier == 'thorough' else 16000, 1)):
+            body = [fill] * n if fill is not None else [rng.randrange(256) for _ in range(n)]
+            a, b, _ = impl_hist(body)
+            cases.append(Case('checksum-long', 'ck ' + C.hexs(bytes(body)), f'{a} {b}', {'n': n, 'fill': fill}, kind='very-long'))
+        # observations interleaved with reset(): value()/matches() must always describe the bytes since the last reset
+        for _ in range(300 if tier == 'quick' else 8000):
+            ck = Checksum()
+            since = []
+            ok = True
+            trace = []
+            for _s in range(rng.randrange(2, 12)):
+                op = rng.choice(['add', 'add', 'value', 'matches', 'reset', 'value'])
+                trace.append(op)
+                if op == 'add':
+                    x = rng.randrange(256)
+                    since.append(x)
+                    ck.add(x)
+                elif op == 'reset':
+                    ck.reset()
+                    since = []
+                else:
+                    a0, b0 = 0, 0
+                    for x in since:
+                        a0 = (a0 + x) & 255
+                        b0 = (b0 + a0) & 255
+                    if op == 'value':
+                        ok = ok and ck.value() == (a0, b0)
+                    else:
+                        ok = ok and ck.matches(a0, b0) and not ck.matches(a0 ^ 1, b0)
+            a, b = ck.value()
+            cases.append(Case('checksum-observe-reset', 'ck ' + C.hexs(bytes(since)), f'{a} {b}' if ok else 'observation-wrong',
+                              {'ops': trace, 'since_last_reset': since}, nontrivial=False, kind='observe-reset'))
         # step function from states reached through a 2-byte prefix
         ck = Checksum()
 
